@@ -71,9 +71,9 @@ Qed.
 Definition field_bytes (v : valuation) (x : ifield) : list N :=
   int_bytes (snd (fst x)) (snd x) (vint v (fst (fst x))).
 
-Lemma mops_run_ints ms : forall fs p0 d0 v,
+Lemma mops_run_ints wc ms : forall fs p0 d0 v,
   int_fields ms = Some fs ->
-  mops_run {| ms_p := p0; ms_d := d0; ms_v := v |} ms =
+  mops_run wc {| ms_p := p0; ms_d := d0; ms_v := v |} ms =
   Ok {| ms_p := p0 ++ List.concat (map (field_bytes v) fs); ms_d := d0; ms_v := v |}.
 Proof.
   induction ms as [|m ms IH]; intros fs p0 d0 v H.
@@ -367,7 +367,7 @@ Proof.
   split; [|split; [|reflexivity]].
   - (* Marshal *)
     unfold cmd_marshal. rewrite Handx. cbn [cstate_new cs_params cs_data].
-    rewrite (mops_run_ints _ fs [] [] v Hfs). cbn [bind ms_p ms_d ms_v app].
+    rewrite (mops_run_ints _ _ fs [] [] v Hfs). cbn [bind ms_p ms_d ms_v app].
     assert (HP : List.concat (map (field_bytes v) fs) = P) by (unfold v; now apply field_bytes_wire).
     rewrite !HP.
     rewrite (truncate_decl_fit fs (cd_decl c) ns v Hdecl Hfit (vget_int_valuation_in fs ns Hnd)).
@@ -404,7 +404,7 @@ Proof.
       rewrite Hus. unfold expected_unmarshal.
       cbn [uops_run uop_step bind us_read us_env us_v].
       pose proof (read_fields (x :: fs') ns [] [] (repeatN 0 (N.to_nat (append_cap (lenN P) - lenN P))) ([], [])
-                    {| us_off := 0; us_read := lenN ([lenN P / 2] ++ P); us_env := []; us_v := zero_valuation c |}
+                    {| us_off := 0; us_read := lenN ([lenN P / 2] ++ P); us_env := [(wc_var, p_wc (params_add_stream params_new P))]; us_v := zero_valuation c |}
                     [UReset SD] Hfit Hpos eq_refl) as Hrd.
       cbn [app us_off us_read us_env us_v] in Hrd. rewrite app_nil_r in Hrd. fold P in Hrd.
       change (lenN (lenN P / 2 :: P)) with (lenN ([lenN P / 2] ++ P)) in Hrd.
